@@ -204,7 +204,7 @@ fn observe(w: &dyn W, compound: bool) -> Result<Kvs, String> {
         }
     }
     let pad_obs = match guard(|| w.pad()) {
-        Ok(p) => crate::opt_n(p),
+        Ok(p) => crate::opt_pad(p),
         Err(()) => Obs::S("PANIC"),
     };
     let mut out = vec![
